@@ -1435,6 +1435,11 @@ func (d *Data) storeAndUpdate(ctx *datastore.VersionedCtx, keyStr string, newDat
 	}
 	rcvJSON, _ := json.Marshal(newData)
 	origJSON, _ := json.Marshal(origData)
+	// updateJSON removes nulled fields from origData, so remember which fields the stored annotation had.
+	origFields := make([]string, 0, len(origData))
+	for field := range origData {
+		origFields = append(origFields, field)
+	}
 	updateJSON(origData, newData, ctx.User, conditionals, replace)
 	newJSON, _ := json.Marshal(newData)
 	dvid.Infof("neuronjson %s put by user %q, conditionals %v, replace %t:\nOrig: %s\n Rcv: %s\n New: %s\n",
@@ -1447,8 +1452,8 @@ func (d *Data) storeAndUpdate(ctx *datastore.VersionedCtx, keyStr string, newDat
 		mdb.data[bodyid] = newData
 
 		// cache updated field and field timestamps
-		for field := range origData {
-			mdb.fields[field]--
+		for _, field := range origFields {
+			mdb.decrementField(field)
 		}
 		for field := range newData {
 			mdb.fields[field]++
@@ -1579,7 +1584,7 @@ func (d *Data) DeleteData(ctx storage.VersionedCtx, keyStr string) error {
 		_, found := mdb.data[bodyid]
 		if found {
 			for field := range mdb.data[bodyid] {
-				mdb.fields[field]--
+				mdb.decrementField(field)
 			}
 			delete(mdb.data, bodyid)
 			mdb.deleteBodyID(bodyid)
@@ -2279,13 +2284,11 @@ func (d *Data) ServeHTTP(uuid dvid.UUID, ctx *datastore.VersionedCtx, w http.Res
 		if returnCounts {
 			result = fieldCount
 		} else {
-			fields := make([]string, len(fieldCount))
-			i := 0
+			fields := make([]string, 0, len(fieldCount))
 			for field, count := range fieldCount {
 				if count > 0 {
-					fields[i] = field
+					fields = append(fields, field)
 				}
-				i++
 			}
 			result = fields
 		}
